@@ -327,3 +327,17 @@ _compose(LRMG, "l", ANY_LAYER, req=lambda b: f"ltotal(self._layer_mapping, rule_
 for _k, _c in list(REG.contracts.items()):
     if _k.startswith(LRMG + ".") and _c.properties == ["C03"]:
         _c.properties = list(_C05)
+
+# ---------------------------------------------------------------- C03: a bucket contributes records iff it is non-empty (lemmas over the composition contracts)
+REG.lemma("C03_forbidden_bucket_reported_iff_nonempty", params=dict(g=RMG, B="Bag[Dep]", R="Bag[RVM]"), requires=["other_complete(g, B, R)"],
+          ensures=["exists(RVM, lambda m: (m in R) and other_img(g, B, m)) == nonempty(B)"], view="string", properties=["C03"],
+          note="R: any record collection that completely reports bucket B (e.g. the result of _create_violation_messages)")
+REG.lemma("C03_missing_bucket_reported_iff_nonempty", params=dict(g=RMG, B="Bag[Dep]", pre="Str", R="Bag[RVM]"), requires=["noimp_complete(g, B, pre, R)"],
+          ensures=["exists(RVM, lambda m: (m in R) and noimp_sound(g, B, pre, m)) == nonempty(B)"], opaque=["noimp_match"], view="string", properties=["C03"])
+REG.lemma("C03_records_iff_some_bucket_nonempty", params=dict(g=RMG, rv="RuleViolations", R="Bag[RVM]"),
+          requires=["forall(RVM, lambda m: implies(m in R, all_sound(g, rv, m)))", "all_complete(g, rv, R)"],
+          ensures=["nonempty(R) == (" + " or ".join(f"nonempty(rv.{b})" for b in [b for b, _ in _NOIMP_BUCKETS] + _OTHER_BUCKETS) + ")"],
+          use=[f"C03_missing_bucket_reported_iff_nonempty(g, rv.{b}, {repr(ANY_MOD if a else '')}, R)" for b, a in _NOIMP_BUCKETS]
+          + [f"C03_forbidden_bucket_reported_iff_nonempty(g, rv.{b}, R)" for b in _OTHER_BUCKETS],
+          opaque=["noimp_match", "noimp_sound", "noimp_complete", "other_img", "other_complete"], view="string", properties=["C03"],
+          note="with the postcondition of _create_violation_messages: the record list is empty iff all eight buckets are empty")
